@@ -12,7 +12,7 @@ BASE = ("Trusted: Kani's MIR->GOTO translation, CBMC, CaDiCaL; the oracles in /v
 
 # Properties whose registered check has been run green, end to end, on the unchanged tree by the main session.
 # gen_manifest.py lists every other property under not_applicable ("under construction") even if harnesses exist.
-CLAIMED = ["C%02d" % i for i in range(1, 21)]   # PROVISIONAL (probing with vp check); trimmed to the green ones before the final commit
+CLAIMED = ["C13"]
 
 MANIFEST_TEXT = {
     "C01": dict(
